@@ -53,7 +53,8 @@ def main(argv=None):
     for n in range(2, nmax + 1):
         ts = gate_sem.all_trees(n, 3)
         ntrees[n] = len(ts)
-        for s in sids:
+        # the 27 099 six-event trees are run under half of the schedules
+        for s in (sids if n < 6 else sids[: max(2, len(sids) // 2)]):
             for lo in range(0, len(ts), BATCH):
                 u = sched(s)
                 u.update(kind="c06", n=n,
